@@ -23,6 +23,19 @@ func init() {
 		w.defaultSettle()
 		w.checkCore()
 		w.checkFailures()
+		if w.Cfg.AllFailScenario {
+			// nobody is left waiting for a node that has failed - whatever the call type: the
+			// server-stream call of this scenario ends only when every node has failed for it
+			for _, c := range w.calls[1:] {
+				if c.InvokeSeq == 0 || c.Info.Kind != "cstream" || c.CtxKind != "bg" || c.IsProbe {
+					continue
+				}
+				w.rule("C07.failed-node-completes-the-wait", c.DoneSeq != 0)
+				if c.DoneSeq == 0 {
+					w.violate("C07", "left-waiting", "stream", "call t%d (%s): every targeted node has failed for it (node %v was down and its request could not be sent; the others ended their streams with an error), but it is still waiting: the failure of a node did not reach the call: %s", c.Tok, c.Stub, w.Cfg.Down, w.stuckReport())
+				}
+			}
+		}
 	}
 	profileGen["C08"] = genC08
 	profileAfterMain["C08"] = afterC08
@@ -40,6 +53,10 @@ func genC07(g *gen) {
 	c.FaultFree = false
 	g.genConfigs(false)
 	n := c.NServers
+	if n >= 2 && g.chance(0.06) {
+		genAllFail(g)
+		return
+	}
 	// failure mode per server
 	modes := make([]string, n)
 	for i := range modes {
@@ -574,10 +591,49 @@ func (w *World) probeAll(round int, maxTime time.Duration) (failed []string, det
 			p := &probe{m: m, si: si}
 			probes = append(probes, p)
 			op := &Op{Kind: "call", Stub: "GRPCCall", Node: si, Ctx: "bg", Plans: map[int]*HandlerPlan{}}
+			if w.Cfg.ProbeNSW {
+				op = &Op{Kind: "call", Stub: "Unicast", Node: si, Ctx: "bg", NoSendWait: true, Plans: map[int]*HandlerPlan{}}
+			}
 			simrt.GoNamed(fmt.Sprintf("c%d/probe%d.%d", m.Idx, round, si), "probe", func() {
 				c := w.newCall(m, -1, round, op)
 				c.IsProbe = true
 				node := w.nodeOf(m, si)
+				if w.Cfg.ProbeNSW {
+					// fire and forget; the probe has succeeded once the current incarnation has handled it
+					c.InvokeSeq = w.ev("probe-invoke", "tok=%d mgr=%d srv=%d (one-way, no send waiting)", c.Tok, m.Idx, si)
+					t0 := w.elapsed()
+					func() {
+						defer func() {
+							if r := recover(); r != nil {
+								p.err = fmt.Sprint("panic: ", r)
+							}
+						}()
+						c.res = invokeStub(context.Background(), nil, node, c, c.Req, []gorums.CallOption{gorums.WithNoSendWaiting()})
+					}()
+					w.mu.Lock()
+					c.ReturnSeq = w.nextSeq()
+					c.DoneSeq = c.ReturnSeq
+					w.mu.Unlock()
+					simrt.Gate("probe-nsw-wait", func() bool {
+						for _, h := range w.hrecs {
+							if h.Tok == c.Tok && h.Srv == si && h.Inc == w.servers[si].Inc {
+								return true
+							}
+						}
+						return w.elapsed()-t0 > maxTime
+					})
+					for _, h := range w.handlersFor(c, si) {
+						if h.Inc == w.servers[si].Inc {
+							p.ok = true
+						}
+					}
+					if !p.ok && p.err == "" {
+						p.err = "the one-way message was never handled by the node"
+					}
+					w.ev("probe-return", "tok=%d ok=%v err=%q", c.Tok, p.ok, firstLine(p.err))
+					p.done = true
+					return
+				}
 				ctx, cancel := context.WithTimeout(context.Background(), maxTime)
 				defer cancel()
 				c.InvokeSeq = w.ev("probe-invoke", "tok=%d mgr=%d srv=%d", c.Tok, m.Idx, si)
@@ -722,6 +778,11 @@ func genC10(g *gen) {
 		}
 	}
 	pool := stubsOf("rpc", "qc", "async", "mcast", "ucast", "corr")
+	if g.chance(0.15) {
+		// an application that only ever fires and forgets: nothing but no-send-waiting one-way calls
+		c.ProbeNSW = true
+		pool = stubsOf("mcast", "ucast")
+	}
 	for m := 0; m < c.NMgrs; m++ {
 		th := &Thread{Mgr: m}
 		nOps := 2 + g.r.IntN(8)
@@ -730,6 +791,9 @@ func genC10(g *gen) {
 			op := g.callOp(m, s, 0, 0.05)
 			op.Ctx = pick(g.r, "bg", "deadline", "deadline")
 			op.DeadlineMs = pick(g.r, 50, 1000, 5000)
+			if c.ProbeNSW {
+				op.NoSendWait = true
+			}
 			if op.QF != nil {
 				op.QF.Threshold = 1 + g.r.IntN(n)
 				op.QF.Slow = false
@@ -809,6 +873,9 @@ func (w *World) checkNoBackoffWait() {
 }
 
 func (w *World) noBackoffProbe(m *Mgr, si int) {
+	if w.Cfg.ProbeNSW {
+		return // this run's application never issues anything but fire-and-forget calls
+	}
 	op := &Op{Kind: "call", Stub: "GRPCCall", Node: si, Ctx: "bg", Plans: map[int]*HandlerPlan{}}
 	var c *Call
 	done := false
@@ -858,12 +925,29 @@ func (w *World) noBackoffProbe(m *Mgr, si int) {
 		return true
 	}
 	w.grace("nbprobe-a", false, 30*time.Second, 8000, replied)
+	// the call receives the reply: if the restarted server has handled the request and replied
+	// (no fault is injected in this phase), the call must not end with an error instead
+	gotReply := func() {
+		if c == nil || !done {
+			return
+		}
+		hs := w.handlersFor(c, si)
+		if len(hs) == 1 && hs[0].ReturnSeq != 0 && hs[0].ErrCode == 0 && hs[0].Inc == w.servers[si].Inc {
+			ok := c.res.err == nil
+			w.rule("C10.handled-request-is-answered", ok)
+			if !ok {
+				w.violate("C10", "reply-lost-after-restart", "", "the restarted server %d handled the request of call t%d and replied, no fault followed, but the call ended with %q instead of the reply", si, c.Tok, firstLine(c.res.err.Error()))
+			}
+		}
+	}
 	if c == nil || done {
 		if c != nil && c.res.err == nil {
 			w.rule("C10.reply-needs-no-backoff-timer", true)
 		}
+		gotReply()
 		return
 	}
+	defer gotReply()
 	if !replied() {
 		// the request was not handled within 30 s: not judged here (eventual contact is rule (i))
 		if c.cancel != nil {
